@@ -51,11 +51,13 @@ def run(ctx):
         gstates = gstates[:300]
 
     cases = []
+    ncases = {}
     for n, s in enumerate(states):
         cases.append({"ID": "L%d" % n, "Files": s["files"], "FailOn": s["failOn"], "Legacy": s["legacy"], "UnknownTok": s["unknownTok"], "Pats": s["pats"]})
     for n, s in enumerate(gstates):
         e, d = s["gcase"]
         cases.append({"ID": "G%d" % n, "Files": ["valid"], "FailOn": [], "Pats": "list", "Groups": True, "Enable": e, "Disable": d})
+    ctx.rng.shuffle(cases)     # lenient-before-strict and strict-before-lenient instantiations of the same rule files both occur
     inp, outp = ctx.path("rl_in.json"), ctx.path("rl_out.json")
     json.dump(cases, open(inp, "w"))
     work = os.path.dirname(ctx.path("rlwork", "x"))
@@ -70,7 +72,7 @@ def run(ctx):
         desc = "files=%s failOn=%s%s%s patterns=%s" % (files, ",".join(s["failOn"]) or "''", " failOnError=true" if s["legacy"] else "",
                                                       " +unknown token" if s["unknownTok"] else "", s["pats"])
         if o.get("panic"):
-            ctx.fail("Panic ruleguard-init", "constructing the ruleguard checker panicked for %s: %s" % (desc, o["panic"]), {"case": cases[n], "obs": o})
+            ctx.fail("Panic ruleguard-init", "constructing the ruleguard checker panicked for %s: %s" % (desc, o["panic"]), {"case": desc, "obs": o})
             continue
 
         def doc_class(k):
@@ -83,18 +85,18 @@ def run(ctx):
         valid_hits = sorted("hit%d" % (j + 1) for j, k in enumerate(files) if k == "valid")
         if must_fail and not failed:
             cls = "unknownFailOn" if s["unknownTok"] else ("noMatch" if s["pats"].startswith("nomatch") else "failOn-class")
-            ctx.fail("NotFailing %s" % cls, "initialisation must fail but succeeded: %s (hits=%s)" % (desc, o.get("hits")), {"case": cases[n], "obs": o})
+            ctx.fail("NotFailing %s" % cls, "initialisation must fail but succeeded: %s (hits=%s)" % (desc, o.get("hits")), {"case": desc, "obs": o})
         elif may_skip:
             if failed:
-                ctx.fail("SpuriousInitError", "a skippable failure made initialisation fail: %s: %s" % (desc, o["initErr"]), {"case": cases[n], "obs": o})
+                ctx.fail("SpuriousInitError", "a skippable failure made initialisation fail: %s: %s" % (desc, o["initErr"]), {"case": desc, "obs": o})
             else:
                 hits = o.get("hits") or []
                 extra = [h for h in hits if not h.startswith("hit")]
                 if extra:
                     ctx.fail("SpuriousDiagnostic allSkipped" if not valid_hits else "SpuriousDiagnostic",
-                             "rule files skipped but the analysed file gets %r: %s" % (extra[0], desc), {"case": cases[n], "obs": o})
+                             "rule files skipped but the analysed file gets %r: %s" % (extra[0], desc), {"case": desc, "obs": o})
                 if sorted(h for h in hits if h.startswith("hit")) != valid_hits:
-                    ctx.fail("WrongActiveRules", "the loadable files must still apply: expected %s, observed %s: %s" % (valid_hits, hits, desc), {"case": cases[n], "obs": o})
+                    ctx.fail("WrongActiveRules", "the loadable files must still apply: expected %s, observed %s: %s" % (valid_hits, hits, desc), {"case": desc, "obs": o})
     for n, s in enumerate(gstates):
         o = obs["G%d" % n]
         e, d = s["gcase"]
